@@ -77,7 +77,21 @@ class Driver(object):
         return encoded, frames
 
     def make_case(self, meta):
-        encoded, frames = self.run_case(meta)
+        try:
+            encoded, frames = self.run_case(meta)
+        except core.Broken as why:
+            # the wire could not even be parsed back into frames: record an
+            # observation the predicate rejects and go on with a fresh
+            # connection
+            self.conns.pop(meta['fsrv'], None)
+            if meta['kind'] == 'len':
+                encoded = b'x' * meta['n']
+            elif meta['kind'] == 'bytes':
+                encoded = bytes.fromhex(meta['body'])
+            else:
+                encoded = meta['text'].encode(meta['enc'] or 'utf-8')
+            frames = []
+            meta = dict(meta, wire_error=str(why))
         bylen = meta['kind'] == 'len'
         cin = ('{| pi_fsrv := %s; pi_exch := %s; pi_rkey := %s; pi_mand := %s;'
                ' pi_imm := %s; pi_enc := %s; pi_body := %s |}' % (
